@@ -272,7 +272,21 @@ def pools(container):
 # ---------------------------------------------------------------------------- paths ---
 
 def part_for(rng, node, cond_depth=1, prim_p=0.5, miss_p=0.15, kinds_p=None):
-    """a part term aimed at container `node` (or a near miss)"""
+    """a part term aimed at container `node`: retried (up to 6 times) until it matches at
+    least one child, except for a deliberate share of near misses"""
+    want_match = type(node) in (dict, list) and node and rng.random() > miss_p
+    part = None
+    for _ in range(6):
+        part = _part_for(rng, node, cond_depth, prim_p, 0.0 if want_match else miss_p, kinds_p)
+        if not want_match:
+            return part
+        s = M.walk({"parts": [part]}, node)
+        if s is not M.SKIP and s:
+            return part
+    return part
+
+
+def _part_for(rng, node, cond_depth=1, prim_p=0.5, miss_p=0.15, kinds_p=None):
     is_map = type(node) is dict
     vals, keys = pools(node) if type(node) in (dict, list) and node else ([], [])
     r = rng.random()
@@ -303,8 +317,14 @@ def part_for(rng, node, cond_depth=1, prim_p=0.5, miss_p=0.15, kinds_p=None):
             return {"prim": rng.choice([0, 1, 2, -1])}
         return tree(rng, cond_depth, ["index"], pool=[0, 1, 2, 3])
 
+    if rng.random() < 0.3:
+        return part  # bare part: every child (fan-out)
     if rng.random() < 0.45:
-        part["value"] = vcond() if rng.random() < 0.8 else {"prim": json_arg(rng, vals, 0)}
+        part["value"] = vcond()
+        if rng.random() < 0.2:
+            pv = json_arg(rng, vals, 0)
+            if pv is not None:  # `value=None` means "no value condition" in the API
+                part["value"] = {"prim": pv}
     if p == "map":
         if rng.random() < 0.5:
             part["key"] = kcond()
@@ -343,14 +363,18 @@ def path_for(rng, d, maxlen=4, cond_depth=1, prim_p=0.5, miss_p=0.15, directed=0
             node = rng.choice(frontier) if frontier else d
         part = part_for(rng, node, cond_depth, prim_p, miss_p)
         parts.append(part)
-        sel = M.walk({"parts": [part]}, {"_": None}) if False else None
         new = []
         for x in frontier:
             if type(x) in (dict, list) and x:
                 s = M.walk({"parts": [part]}, x)
                 if s is not M.SKIP:
                     new.extend(v for _, v in s)
-        frontier = new or [rng.choice(cands)] if cands else [d]
+        if new:
+            frontier = new
+        elif cands:
+            frontier = [rng.choice(cands)]  # the walk died: keep generating near the document
+        else:
+            frontier = [d]
     return {"parts": parts, "datum": None, "multi": None, "order": "dm"}
 
 
